@@ -39,4 +39,9 @@ def uniqueIdsB {F I} [DecidableEq I] (out : Output F I) : Bool := out.all (fun p
 def allReachedB {F I} [DecidableEq F] (out : Output F I) (reached : List F) : Bool :=
   out.all (fun p => reached.contains p.1)
 
+/-- reachability in the link graph of the output: `step f f'` = the page `f` carries a hyperlink to `f'` -/
+inductive Reachable {F : Type} (start : F) (step : F → F → Prop) : F → Prop where
+  | start : Reachable start step start
+  | next {f f'} : Reachable start step f → step f f' → Reachable start step f'
+
 end PlasVerif.Spec.Links
